@@ -10,8 +10,8 @@ from . import _eval as E
 
 ID = "C03"
 SETS = {
-    "quick": ["U1L", "U1K3", "R2K", "P:P0q", "P:P1q", "P:P3q"],
-    "thorough": ["U1L_all", "U1K3", "U2K", "P:P0", "P:P1", "P:P3", "P:P4"],
+    "quick": ["U1L", "U1K3", "R2K", "P:P0q", "P:P1q", "P:P3q", "P:P6q", "BYTES"],
+    "thorough": ["U1L_all", "U1K3", "U2K", "P:P0", "P:P1", "P:P3", "P:P4", "P:P6", "BYTES"],
 }
 WR = {"quick": (2, 2), "thorough": (2, 2)}
 NWIRE = {"quick": 8, "thorough": 14}
@@ -50,6 +50,17 @@ def pool_for(term, ns, tier, res):
             if rn == "json":
                 for c in inputs.CARRIERS[1:]:
                     pool.append((f"wire{vi}:json:{c}", (lambda rv, c: lambda: inputs.carry(rv, c))(rv, c)))
+        # an instance of the target class itself whose members are still raw (text where a number is declared)
+        if vi < 3 and term.kind in ("struct", "cls") and isinstance(w, dict) and not isinstance(v, dict):
+            raw = {kk: (str(x) if isinstance(x, (int, float)) and not isinstance(x, bool) else x) for kk, x in w.items()}
+            mk = call(lambda: ns[term.name](**raw))
+            if mk.ok:
+                pool.append((f"self-instance-raw{vi}", (lambda raw=raw: ns[term.name](**raw))))
+        if term.has_bytes:
+            for bc in (bytes, bytearray, memoryview):
+                if isinstance(w, (bytes, bytearray)):
+                    pool.append((f"wire{vi}:as-{bc.__name__}", (lambda w=w, bc=bc: bc(bytes(w)))))
+            continue
         cs, capped = inputs.corr(w, k=k, cap=600)
         if capped:
             res.caps.append("corruptions>600")
@@ -61,6 +72,8 @@ def pool_for(term, ns, tier, res):
 def in_class(label):
     if label.startswith("wire"):
         return "wire:" + label.split(":", 1)[1]
+    if label.startswith("self-instance-raw"):
+        return "same-class-instance-with-raw-members"
     if label.startswith("corrupt"):
         return "corrupt:" + label.split(":", 1)[1].split("+")[-1]
     return inputs.input_class(label)
@@ -74,9 +87,6 @@ def shallow_sig(t):
 
 
 def run_term(setname, i, term, tier, res, only_label=None):
-    if term.has_bytes:
-        res.skipped += 1
-        return
     prog = E.Prog(term)
     try:
         res.programs += 1
